@@ -245,6 +245,11 @@ func TestOperatorTable(t *testing.T) {
 		for _, op := range []ir.Op{ir.OpNot, ir.OpNeg, ir.OpIsEmpty} {
 			emit(ir.Un(op, a))
 		}
+		// a unary operator applied twice (an operator pair that cancels on well-typed operands still has to fail on others)
+		for _, ops := range [][2]ir.Op{{ir.OpNot, ir.OpNot}, {ir.OpNeg, ir.OpNeg}, {ir.OpNot, ir.OpNeg}, {ir.OpNeg, ir.OpNot}} {
+			emit(ir.Un(ops[0], ir.Un(ops[1], a)))
+			emit(ir.SetE(ir.Un(ops[0], ir.Un(ops[1], a)), ir.Lit(ir.Long(1))))
+		}
 		emit(ir.Is(a, "T0"))
 		emit(ir.Has(a, "x"))
 		emit(ir.Access(a, "x"))
@@ -260,6 +265,13 @@ func TestOperatorTable(t *testing.T) {
 				emit(ir.If(a, b, a))
 				emit(ir.Ext("lessThan", a, b))
 			}
+		}
+	}
+	for _, v := range vars {
+		for _, ops := range [][2]ir.Op{{ir.OpNot, ir.OpNot}, {ir.OpNeg, ir.OpNeg}, {ir.OpNot, ir.OpNeg}, {ir.OpNeg, ir.OpNot}} {
+			emit(ir.Un(ops[0], ir.Un(ops[1], v)))
+			emit(ir.Un(ops[0], ir.Un(ops[1], ir.Un(ops[0], ir.Un(ops[1], v)))))
+			emit(ir.RecE([]string{"k"}, []*ir.Expr{ir.Un(ops[0], ir.Un(ops[1], v))}))
 		}
 	}
 	for _, op := range binops {
